@@ -39,6 +39,9 @@ StepOf(sd, j, m) ==
   LET el == Pick(sd, K(60 + j, 0, 1), ElemsOf(m)) IN
   IF el.k \in Detachable /\ Coin(sd, K(60 + j, 0, 2), 15) THEN [op |-> "detach", el |-> el, out |-> ""]
   ELSE IF el.k \in Detachable /\ Coin(sd, K(60 + j, 0, 4), IF el.k = "project" THEN 45 ELSE 12) THEN [op |-> "readd", el |-> el, out |-> ""]
+  \* an equal COPY of an enum is handed to Database.add (refused while the enum is a member; otherwise taken out again at
+  \* once) and rendered: it is no member, so the default classes render it, and nothing else changes
+  ELSE IF el.k = "enum" /\ Coin(sd, K(60 + j, 0, 5), 25) THEN [op |-> "addcopy", el |-> el, out |-> Pick(sd, K(60 + j, 0, 3), <<"sql", "dbml">>)]
   \* table groups, the project and sticky notes exist in DBML only (they have no .sql)
   ELSE [op |-> "render", el |-> el,
         out |-> IF el.k \in {"group", "project", "sticky"} THEN "dbml" ELSE Pick(sd, K(60 + j, 0, 3), <<"sql", "dbml">>)]
@@ -59,7 +62,7 @@ DetachedAfter(sess, n) ==
 ExpectedClass(cfg, sess, j) ==
   LET s == sess[j]
       attached == s.el \notin DetachedAfter(sess, j - 1)
-      cls == IF attached THEN cfg[s.out] ELSE "default"
+      cls == IF attached /\ s.op # "addcopy" THEN cfg[s.out] ELSE "default"
   IN IF cls = "default" THEN "default" ELSE IF s.el.k \in CustomHandles THEN "custom" ELSE "empty"
 
 \* steps j1 < j2 render the same (element, output) with no detach in between: same text
